@@ -128,10 +128,30 @@ package gmars
 // ---------------------------------------------------------------------------
 // reporting (trusted: user supplied listeners do not mutate the simulator)
 
+// ghost view of the report stream (exists only in the contracts):
+//   touched / touchW: addresses named by a write / increment / decrement report since the last
+//   WarriorTaskPop report, and the warrior index that report carried
+//@ ghost reportSim.nrep Int
+//@ ghost reportSim.lastType Int
+//@ ghost reportSim.lastAddr Int
+//@ ghost reportSim.lastW Int
+//@ ghost reportSim.touched (Array Int Bool)
+//@ ghost reportSim.touchW (Array Int Int)
+//@ ghost reportSim.ttermCount Int
+//@ ghost reportSim.wtermCount Int
+//@ pure isTouch(t int) = t == WarriorWrite || t == WarriorIncrement || t == WarriorDecrement
+//@ pure noTouch(s *reportSim) = s.touched == old(s.touched) && s.touchW == old(s.touchW)
+
 //@ trusted (*reportSim).Report
 //@   requires s != nil
 //@   requires [C15] report.Type >= WarriorSpawn ==> report.Address < s.m && 0 <= report.WarriorIndex && report.WarriorIndex < s.warriorCount
-//@   modifies nothing
+//@   modifies ghost s.*
+//@   ensures s.nrep == old(s.nrep) + 1 && s.lastType == report.Type && s.lastAddr == report.Address && s.lastW == report.WarriorIndex
+//@   ensures isTouch(report.Type) ==> s.touched == old(s.touched)[report.Address := true] && s.touchW == old(s.touchW)[report.Address := report.WarriorIndex]
+//@   ensures report.Type == WarriorTaskPop ==> (forall a :: !s.touched[a])
+//@   ensures !isTouch(report.Type) && report.Type != WarriorTaskPop ==> noTouch(s)
+//@   ensures s.ttermCount == old(s.ttermCount) + ite(report.Type == WarriorTaskTerminate, 1, 0)
+//@   ensures s.wtermCount == old(s.wtermCount) + ite(report.Type == WarriorTerminate, 1, 0)
 
 // ---------------------------------------------------------------------------
 // simops.go
@@ -139,7 +159,8 @@ package gmars
 //@ func (*reportSim).mov
 //@   panics [C04]
 //@   requires hPre(s, w, WAB) && PC < s.m
-//@   modifies s.mem[WAB], w.pq.queue[w.pq.end], w.pq.end, w.pq.length
+//@   modifies s.mem[WAB], w.pq.queue[w.pq.end], w.pq.end, w.pq.length, ghost s.*
+//@   ensures [C15] noTouch(s) && s.wtermCount == old(s.wtermCount) && s.ttermCount == old(s.ttermCount) + 0
 //@   ensures [C04] qStep(w.pq, s.m)
 //@   ensures qPushed(w.pq, (PC + 1) % s.m)
 //@   ensures [C04] wfI(IRA, s.m) && wfI(old(s.mem[WAB]), s.m) ==> wfI(s.mem[WAB], s.m)
@@ -148,7 +169,8 @@ package gmars
 //@ func (*reportSim).add
 //@   panics [C04]
 //@   requires hPre(s, w, WAB) && PC < s.m
-//@   modifies s.mem[WAB], w.pq.queue[w.pq.end], w.pq.end, w.pq.length
+//@   modifies s.mem[WAB], w.pq.queue[w.pq.end], w.pq.end, w.pq.length, ghost s.*
+//@   ensures [C15] noTouch(s) && s.wtermCount == old(s.wtermCount) && s.ttermCount == old(s.ttermCount) + 0
 //@   ensures [C04] qStep(w.pq, s.m)
 //@   ensures qPushed(w.pq, (PC + 1) % s.m)
 //@   ensures [C04] wfI(old(s.mem[WAB]), s.m) ==> wfI(s.mem[WAB], s.m)
@@ -157,7 +179,8 @@ package gmars
 //@ func (*reportSim).sub
 //@   panics [C04]
 //@   requires hPre(s, w, WAB) && PC < s.m
-//@   modifies s.mem[WAB], w.pq.queue[w.pq.end], w.pq.end, w.pq.length
+//@   modifies s.mem[WAB], w.pq.queue[w.pq.end], w.pq.end, w.pq.length, ghost s.*
+//@   ensures [C15] noTouch(s) && s.wtermCount == old(s.wtermCount) && s.ttermCount == old(s.ttermCount) + 0
 //@   ensures [C04] qStep(w.pq, s.m)
 //@   ensures qPushed(w.pq, (PC + 1) % s.m)
 //@   ensures [C04] wfI(old(s.mem[WAB]), s.m) ==> wfI(s.mem[WAB], s.m)
@@ -166,7 +189,8 @@ package gmars
 //@ func (*reportSim).mul
 //@   panics [C04]
 //@   requires hPre(s, w, WAB) && PC < s.m
-//@   modifies s.mem[WAB], w.pq.queue[w.pq.end], w.pq.end, w.pq.length
+//@   modifies s.mem[WAB], w.pq.queue[w.pq.end], w.pq.end, w.pq.length, ghost s.*
+//@   ensures [C15] noTouch(s) && s.wtermCount == old(s.wtermCount) && s.ttermCount == old(s.ttermCount) + 0
 //@   ensures [C04] qStep(w.pq, s.m)
 //@   ensures qPushed(w.pq, (PC + 1) % s.m)
 //@   ensures [C04] wfI(old(s.mem[WAB]), s.m) ==> wfI(s.mem[WAB], s.m)
@@ -175,7 +199,8 @@ package gmars
 //@ func (*reportSim).div
 //@   panics [C04]
 //@   requires hPre(s, w, WAB) && PC < s.m
-//@   modifies s.mem[WAB], w.pq.queue[w.pq.end], w.pq.end, w.pq.length
+//@   modifies s.mem[WAB], w.pq.queue[w.pq.end], w.pq.end, w.pq.length, ghost s.*
+//@   ensures [C15] noTouch(s) && s.wtermCount == old(s.wtermCount) && s.ttermCount == old(s.ttermCount) + ite(IR.OpMode <= 6 && divDies(IR.OpMode, IRA), 1, 0)
 //@   ensures [C04] qStep(w.pq, s.m)
 //@   ensures [C04] pqInv(w.pq) && qFrame(w.pq) && (wfI(IRB, s.m) && wfI(IRA, s.m) && wfI(old(s.mem[WAB]), s.m) ==> wfI(s.mem[WAB], s.m))
 //@   ensures [C01] IR.OpMode <= 6 ==> s.mem[WAB] == divSpec(DIV, IR.OpMode, old(s.mem[WAB]), IRA, IRB, s.m)
@@ -185,7 +210,8 @@ package gmars
 //@ func (*reportSim).mod
 //@   panics [C04]
 //@   requires hPre(s, w, WAB) && PC < s.m
-//@   modifies s.mem[WAB], w.pq.queue[w.pq.end], w.pq.end, w.pq.length
+//@   modifies s.mem[WAB], w.pq.queue[w.pq.end], w.pq.end, w.pq.length, ghost s.*
+//@   ensures [C15] noTouch(s) && s.wtermCount == old(s.wtermCount) && s.ttermCount == old(s.ttermCount) + ite(IR.OpMode <= 6 && divDies(IR.OpMode, IRA), 1, 0)
 //@   ensures [C04] qStep(w.pq, s.m)
 //@   ensures [C04] pqInv(w.pq) && qFrame(w.pq) && (wfI(IRB, s.m) && wfI(IRA, s.m) && wfI(old(s.mem[WAB]), s.m) ==> wfI(s.mem[WAB], s.m))
 //@   ensures [C01] IR.OpMode <= 6 ==> s.mem[WAB] == divSpec(MOD, IR.OpMode, old(s.mem[WAB]), IRA, IRB, s.m)
@@ -195,7 +221,8 @@ package gmars
 //@ func (*reportSim).jmz
 //@   panics [C04]
 //@   requires memOK(s) && wOK(s, w) && PC < s.m && RAB < s.m
-//@   modifies w.pq.queue[w.pq.end], w.pq.end, w.pq.length
+//@   modifies w.pq.queue[w.pq.end], w.pq.end, w.pq.length, ghost s.*
+//@   ensures [C15] noTouch(s) && s.wtermCount == old(s.wtermCount) && s.ttermCount == old(s.ttermCount) + 0
 //@   ensures [C04] qStep(w.pq, s.m)
 //@   ensures [C01] IR.OpMode <= 6 ==> qPushed(w.pq, ite(allZero(IR.OpMode, IRB), RAB, (PC + 1) % s.m))
 //@   ensures IR.OpMode > 6 ==> qSame(w.pq)
@@ -203,7 +230,8 @@ package gmars
 //@ func (*reportSim).jmn
 //@   panics [C04]
 //@   requires memOK(s) && wOK(s, w) && PC < s.m && RAB < s.m
-//@   modifies w.pq.queue[w.pq.end], w.pq.end, w.pq.length
+//@   modifies w.pq.queue[w.pq.end], w.pq.end, w.pq.length, ghost s.*
+//@   ensures [C15] noTouch(s) && s.wtermCount == old(s.wtermCount) && s.ttermCount == old(s.ttermCount) + 0
 //@   ensures [C04] qStep(w.pq, s.m)
 //@   ensures [C04] pqInv(w.pq) && qFrame(w.pq)
 //@   ensures [C01] IR.OpMode <= 6 ==> qPushed(w.pq, ite(allZero(IR.OpMode, IRB), (PC + 1) % s.m, RAB))
@@ -212,7 +240,8 @@ package gmars
 //@ func (*reportSim).djn
 //@   panics [C04]
 //@   requires hPre(s, w, WAB) && PC < s.m && RAB < s.m
-//@   modifies s.mem[WAB], w.pq.queue[w.pq.end], w.pq.end, w.pq.length
+//@   modifies s.mem[WAB], w.pq.queue[w.pq.end], w.pq.end, w.pq.length, ghost s.*
+//@   ensures [C15] noTouch(s) && s.wtermCount == old(s.wtermCount) && s.ttermCount == old(s.ttermCount) + 0
 //@   ensures [C04] qStep(w.pq, s.m)
 //@   ensures [C04] pqInv(w.pq) && qFrame(w.pq) && (wfI(old(s.mem[WAB]), s.m) ==> wfI(s.mem[WAB], s.m))
 //@   ensures [C01] IR.OpMode <= 6 && funcM(s) && wfI(old(s.mem[WAB]), s.m) ==> s.mem[WAB] == djnSpec(IR.OpMode, old(s.mem[WAB]), s.m)
@@ -222,7 +251,9 @@ package gmars
 //@ func (*reportSim).cmp
 //@   panics [C04]
 //@   requires memOK(s) && wOK(s, w) && PC < s.m
-//@   modifies w.pq.queue[w.pq.end], w.pq.end, w.pq.length
+//@   modifies w.pq.queue[w.pq.end], w.pq.end, w.pq.length, ghost s.*
+//@   ensures [C15] noTouch(s) && s.wtermCount == old(s.wtermCount) && s.ttermCount == old(s.ttermCount) + 0
+//@   ensures [C15] w.pq.length == old(w.pq.length) + ite(old(w.pq.length) < w.pq.size, 1, 0)
 //@   ensures [C04] qStep(w.pq, s.m)
 //@   ensures [C01] IR.OpMode <= 6 && funcM(s) ==> qPushed(w.pq, ite(cmpAll(IR.OpMode, IRA, IRB), (PC + 2) % s.m, (PC + 1) % s.m))
 //@   ensures IR.OpMode > 6 ==> qPushed(w.pq, (PC + 1) % s.m)
@@ -230,7 +261,9 @@ package gmars
 //@ func (*reportSim).sne
 //@   panics [C04]
 //@   requires memOK(s) && wOK(s, w) && PC < s.m
-//@   modifies w.pq.queue[w.pq.end], w.pq.end, w.pq.length
+//@   modifies w.pq.queue[w.pq.end], w.pq.end, w.pq.length, ghost s.*
+//@   ensures [C15] noTouch(s) && s.wtermCount == old(s.wtermCount) && s.ttermCount == old(s.ttermCount) + 0
+//@   ensures [C15] w.pq.length == old(w.pq.length) + ite(old(w.pq.length) < w.pq.size, 1, 0)
 //@   ensures [C04] qStep(w.pq, s.m)
 //@   ensures [C01] IR.OpMode <= 6 && funcM(s) ==> qPushed(w.pq, ite(cmpAll(IR.OpMode, IRA, IRB), (PC + 1) % s.m, (PC + 2) % s.m))
 //@   ensures IR.OpMode > 6 ==> qPushed(w.pq, (PC + 1) % s.m)
@@ -238,7 +271,9 @@ package gmars
 //@ func (*reportSim).slt
 //@   panics [C04]
 //@   requires memOK(s) && wOK(s, w) && PC < s.m
-//@   modifies w.pq.queue[w.pq.end], w.pq.end, w.pq.length
+//@   modifies w.pq.queue[w.pq.end], w.pq.end, w.pq.length, ghost s.*
+//@   ensures [C15] noTouch(s) && s.wtermCount == old(s.wtermCount) && s.ttermCount == old(s.ttermCount) + 0
+//@   ensures [C15] w.pq.length == old(w.pq.length) + ite(old(w.pq.length) < w.pq.size, 1, 0)
 //@   ensures [C04] qStep(w.pq, s.m)
 //@   ensures [C01] IR.OpMode <= 6 && funcM(s) ==> qPushed(w.pq, ite(sltAll(IR.OpMode, IRA, IRB), (PC + 2) % s.m, (PC + 1) % s.m))
 //@   ensures IR.OpMode > 6 ==> qPushed(w.pq, (PC + 1) % s.m)
@@ -284,6 +319,15 @@ package gmars
 //@      && qAt(q, old(q.length)) == a
 //@      && ite(old(q.length) + 1 >= q.size, q.length == old(q.length) + 1, q.length == old(q.length) + 2 && qAt(q, old(q.length) + 1) == b)
 
+// circular distance between two core addresses (both below m)
+//@ pure fwd(a int, PC int, m int) = ite(a >= PC, a - PC, a + m - PC)
+//@ pure cdist(a int, PC int, m int) = ite(fwd(a, PC, m) <= m - fwd(a, PC, m), fwd(a, PC, m), m - fwd(a, PC, m))
+// a folded pointer p (p < m) reaches at most lim/2 cells forwards or backwards
+//@ pure near(p int, lim int, m int) = p < m && (p <= lim / 2 || m - p <= lim / 2)
+//@ lemma foldBound [C11]: forall p, lim, m :: 0 <= p && 1 <= lim && lim <= m ==> near(fold(p, lim, m), lim, m)
+//@ lemma foldFull [C11]: forall p, m :: 0 <= p && 1 <= m ==> fold(p, m, m) == p % m
+//@ lemma nearDist [C11]: forall p, PC, lim, m :: 0 <= PC && PC < m && 0 <= p && near(p, lim, m) ==> cdist((PC + p) % m, PC, m) <= lim / 2
+
 //@ pure limitsOK(s *reportSim) = 1 <= s.readLimit && s.readLimit <= s.m && 1 <= s.writeLimit && s.writeLimit <= s.m
 //@ pure funcOK(s *reportSim) = limitsOK(s) && funcM(s)
 
@@ -296,7 +340,8 @@ package gmars
 //@   requires execPre(s, w, PC)
 //@   split s.mem[PC].AMode in 0..7
 //@   split s.mem[PC].BMode in 0..7
-//@   modifies s.mem[*], w.pq.queue[*], w.pq.end, w.pq.length
+//@   requires [C15] forall a :: !s.touched[a]
+//@   modifies s.mem[*], w.pq.queue[*], w.pq.end, w.pq.length, ghost s.*
 // the ICWS'94 operand evaluation of the instruction at PC against the entry core c0
 //@   spec m = s.m
 //@   spec R = s.readLimit
@@ -321,6 +366,10 @@ package gmars
 //@      let s1 = ite(IR0.Op == SPL, (PC + 1) % m, succ1(IR0.Op, IR0.OpMode, ira, irb, (PC + 1) % m, (PC + 2) % m, RAB)) in
 //@      (forall a :: 0 <= a && a < m ==> s.mem[a] == cF[a])
 //@      && (n == 0 ==> qSame(w.pq)) && (n == 1 ==> qPushed(w.pq, s1)) && (n == 2 ==> qPushed2(w.pq, s1, RAB))
+//@   ensures [C11] limitsOK(s) ==> (forall a :: 0 <= a && a < s.m && s.mem[a] != old(s.mem[a]) ==> cdist(a, PC, s.m) <= s.writeLimit / 2)
+//@   ensures [C11] funcOK(s) ==> near(rpa, R, m) && near(rpb, R, m) && near(wpb, W, m)
+//@   ensures [C15] forall a :: 0 <= a && a < s.m && s.mem[a] != old(s.mem[a]) ==> s.touched[a] && s.touchW[a] == w.index
+//@   ensures [C15] s.wtermCount == old(s.wtermCount) && s.ttermCount == old(s.ttermCount) + ite(w.pq.length == old(w.pq.length), 1, 0)
 // The proof is cut after operand evaluation: phase 1 (64 addressing-mode cases) establishes
 // the operand facts below, phase 2 (17 opcode cases) derives the postconditions from them
 // with the spec values above kept opaque.
@@ -328,6 +377,9 @@ package gmars
 //@   split IR.Op | IR0.Op in 0..16
 //@   assert [C04] memOK(s) && s.mem == old(s.mem) && memWf(s) && IR == IR0 && IR0 == old(s.mem[PC]) && wfI(IR, s.m) && wfI(IRA, s.m) && wfI(IRB, s.m)
 //@   assert [C04] m == s.m && R == s.readLimit && W == s.writeLimit
+//@   assert [C11] limitsOK(s) ==> near(WPB, s.writeLimit, s.m) && (forall a :: 0 <= a && a < s.m && s.mem[a] != old(s.mem[a]) ==> cdist(a, PC, s.m) <= s.writeLimit / 2)
+//@   assert [C11] funcOK(s) ==> near(rpa, R, m) && near(rpb, R, m) && near(wpb, W, m)
+//@   assert [C15] (forall a :: 0 <= a && a < s.m && s.mem[a] != old(s.mem[a]) ==> s.touched[a] && s.touchW[a] == w.index) && s.wtermCount == old(s.wtermCount) && s.ttermCount == old(s.ttermCount)
 //@   assert [C01] funcOK(s) ==> IRA == ira && IRB == irb && WPB == wpb && RPA == rpa && RPB == rpb && rpa < m && wpb < m && rpb < m && (forall a :: 0 <= a && a < m ==> s.mem[a] == cB2[a])
 
 // ---------------------------------------------------------------------------
@@ -483,7 +535,7 @@ package gmars
 //@ func (*reportSim).spawnWarrior
 //@   panics [C04][C13]
 //@   requires simInv(s)
-//@   modifies s.mem[*], s.warriors[*].pq, s.warriors[*].state, s.warriorLivingCount
+//@   modifies s.mem[*], s.warriors[*].pq, s.warriors[*].state, s.warriorLivingCount, ghost s.*
 //@   ensures [C04] simInv(s)
 //@   ensures [C13] !(0 <= wi && wi < s.warriorCount) ==> result != nil && memSame(s)
 //@   ensures [C13] 0 <= wi && wi < s.warriorCount && old(s.warriors[wi].state) == WarriorAlive ==> result != nil && memSame(s)
@@ -496,13 +548,13 @@ package gmars
 //@ func (*reportSim).SpawnWarrior
 //@   panics [C04][C13]
 //@   requires simInv(s)
-//@   modifies s.mem[*], s.warriors[*].pq, s.warriors[*].state, s.warriorLivingCount
+//@   modifies s.mem[*], s.warriors[*].pq, s.warriors[*].state, s.warriorLivingCount, ghost s.*
 //@   ensures [C04] simInv(s)
 
 //@ func (*reportSim).Reset
 //@   panics [C04][C13]
 //@   requires simInv(s)
-//@   modifies s.mem, s.cycleCount, s.warriorLivingCount, s.warriors[*].state
+//@   modifies s.mem, s.cycleCount, s.warriorLivingCount, s.warriors[*].state, ghost s.*
 //@   ensures [C04] simInv(s)
 //@   ensures [C13] s.cycleCount == 0 && s.warriorLivingCount == 0 && (forall a :: 0 <= a && a < s.m ==> s.mem[a] == old(s.mem[a]){Op: 0}{OpMode: 0}{A: 0}{AMode: 0}{B: 0}{BMode: 0})
 //@   ensures [C13] forall j :: 0 <= j && j < s.warriorCount ==> s.warriors[j].state == WarriorAdded
@@ -558,21 +610,25 @@ package gmars
 
 //@ func (*reportSim).RunCycle
 //@   panics [C04][C13]
+//@   uses [C04][C15][C02][C13]
 //@   requires simInv(s)
-//@   modifies s.mem[*], s.cycleCount, s.warriorIndex, s.warriorLivingCount, s.warriors[*].state
+//@   modifies s.mem[*], s.cycleCount, s.warriorIndex, s.warriorLivingCount, s.warriors[*].state, ghost s.*
 //@   modifies s.warriors[*].pq.queue[*], s.warriors[*].pq.start, s.warriors[*].pq.end, s.warriors[*].pq.length
 //@   ensures [C04] simInv(s)
 //@   ensures [C02][C13] old(cycleGuard(s)) ==> result == 0 && memSame(s) && s.cycleCount == old(s.cycleCount) && s.warriorLivingCount == old(s.warriorLivingCount)
 //@   ensures [C02] !old(cycleGuard(s)) ==> (s.cycleCount == old(s.cycleCount) + 1 && result == s.warriorLivingCount)
 //@      || (s.cycleCount == old(s.cycleCount) && s.warriorCount > 1 && result == 1 && s.warriorLivingCount == 1)
+//@   ensures [C15] s.wtermCount - old(s.wtermCount) == old(s.warriorLivingCount) - s.warriorLivingCount
 //@   loop 1
 //@     invariant simInv(s) && 0 <= i && i <= s.warriorCount
+//@     invariant s.warriorLivingCount <= old(s.warriorLivingCount) && s.warriorLivingCount >= old(s.warriorLivingCount) - i && old(s.warriorLivingCount) >= 1
+//@     invariant [C15] s.wtermCount - old(s.wtermCount) == old(s.warriorLivingCount) - s.warriorLivingCount
 //@     decreases s.warriorCount - i
 
 //@ func (*reportSim).Run
 //@   panics [C04][C13]
 //@   requires simInv(s)
-//@   modifies s.mem[*], s.cycleCount, s.warriorIndex, s.warriorLivingCount, s.warriors[*].state
+//@   modifies s.mem[*], s.cycleCount, s.warriorIndex, s.warriorLivingCount, s.warriors[*].state, ghost s.*
 //@   modifies s.warriors[*].pq.queue[*], s.warriors[*].pq.start, s.warriors[*].pq.end, s.warriors[*].pq.length
 //@   ensures [C04] simInv(s)
 //@   ensures [C02][C13] s.warriorCount == 0 ==> len(result) == 0
